@@ -260,7 +260,7 @@ PROPS['C06'] = dict(
     gen=EQV_ALL, eqv=EQV_ALL, corr=corr_merge(corr_generated(['Axis', 'R1d', 'R2']), corr_hand_kernels(['helicity'])), oracle=oracle_multi(oracles.oracle_C06, lambda objs, st: oracles.oracle_helicity_kernel(st, 6), count=6),
     rule=RULE + '; nfp = k compared with nfp = 1 at k*nphi for odd k', partial=EQV_PARTIAL)
 PROPS['C07'] = dict(
-    lean=['QscProofs.Eqv', 'QscProofs.C15', 'QscProofs.C13', 'QscProofs.C20Spec', 'QscProofs.EqvGrid', 'QscProofs.C05Sigma', 'QscProofs.C06Sigma'], theorems=eqv_theorems(EQV_ALL) + ['C05Sigma.' + t for t in ('residual_reversal_covariant', 'solution_reversal', 'residual_mirror_covariant', 'residual_reversal_mirror_covariant', 'gridD_anticomm_rev', 'residual_reversal_covariant_grid')] + ['C06Sigma.gridDw_anticomm_rev', 'C06Sigma.residual_reversal_covariant_gridw'] + ['EqvGrid.toep_neg', 'EqvGrid.curvature_reversal', 'EqvGrid.X2c_reversal', 'EqvGrid.Z2c_reversal', 'EqvGrid.d2_l_d_phi2_reversal', 'EqvGrid.DMerc_times_r2_reversal', 'C15.lasym_iff', 'C15.lasym_false_iff', 'C13.counter_flipZ', 'C13.counter_reverse', 'C20Spec.toep_antisymm'],
+    lean=['QscProofs.Eqv', 'QscProofs.C15', 'QscProofs.C13', 'QscProofs.C13Cyc', 'QscProofs.C20Spec', 'QscProofs.EqvGrid', 'QscProofs.C05Sigma', 'QscProofs.C06Sigma'], theorems=eqv_theorems(EQV_ALL) + ['C05Sigma.' + t for t in ('residual_reversal_covariant', 'solution_reversal', 'residual_mirror_covariant', 'residual_reversal_mirror_covariant', 'gridD_anticomm_rev', 'residual_reversal_covariant_grid')] + ['C06Sigma.gridDw_anticomm_rev', 'C06Sigma.residual_reversal_covariant_gridw'] + ['EqvGrid.toep_neg', 'EqvGrid.curvature_reversal', 'EqvGrid.X2c_reversal', 'EqvGrid.Z2c_reversal', 'EqvGrid.d2_l_d_phi2_reversal', 'EqvGrid.DMerc_times_r2_reversal', 'C15.lasym_iff', 'C15.lasym_false_iff', 'C13.counter_flipZ', 'C13.counter_reverse', 'C13Cyc.counter_field_reversal', 'C20Spec.toep_antisymm'],
     gen=EQV_ALL, eqv=EQV_ALL, corr=corr_merge(corr_generated(['Axis', 'R1d', 'GradB', 'R2', 'Mercier', 'GGB', 'R3', 'RSing']), corr_hand_kernels(['vmec', 'helicity'])),
     oracle=oracle_multi(oracles.oracle_C07, lambda objs, st: oracles.oracle_helicity_kernel(st, 7)), rule=RULE, partial=EQV_PARTIAL)
 PROPS['C08'] = dict(
@@ -291,7 +291,7 @@ PROPS['C12'] = dict(
     rule=RULE, partial=['completeness ("smallest r > 0 over all theta") depends on numpy polyroots returning all roots and on the 1e-5/1e-7/1e-13 tolerance filters: C12.reported_le_singular proves it under explicit hypotheses on the roots; the rest is measured against a direct scan over theta'])
 
 PROPS['C13'] = dict(
-    lean=['QscProofs.C13', 'QscProofs.C13Cyc', 'QscProofs.C03'], theorems=thms('QscProofs.C13') + ['C13Cyc.counter_rotate', 'C13Cyc.counter_rep', 'C13Cyc.helicity_shift', 'C13Cyc.helicity_repetition', 'C13Cyc.helicity_nfp_invariant', 'C03.untwist_h0', 'C03.untwist_same_surface_1'], gen=['R1d', 'R2', 'R3', 'BmagCyl', 'BmagBoozer'],
+    lean=['QscProofs.C13', 'QscProofs.C13Cyc', 'QscProofs.C03'], theorems=thms('QscProofs.C13') + ['C13Cyc.counter_rotate', 'C13Cyc.counter_rep', 'C13Cyc.helicity_shift', 'C13Cyc.helicity_repetition', 'C13Cyc.helicity_nfp_invariant', 'C13Cyc.counter_field_reversal', 'C03.untwist_h0', 'C03.untwist_same_surface_1'], gen=['R1d', 'R2', 'R3', 'BmagCyl', 'BmagBoozer'],
     corr=corr_merge(corr_generated(['R1d', 'BmagCyl', 'BmagBoozer']), corr_hand_kernels(['helicity'])), oracle=lambda ctx: (lambda st: (oracles.oracle_C13(ctx.all_orders(), st), oracles.oracle_C13_signs(st, ctx.thorough), oracles.oracle_C13_synthetic(st, ctx.seed, 60 if ctx.thorough else 15), oracles.oracle_helicity_kernel(st, ctx.seed, 60 if ctx.thorough else 24), oracles.oracle_history(ctx.all_orders()[::3], st, seed=ctx.seed), st.out())[-1])(oracles.Stats()),
     rule=RULE, partial=['the cubic-spline interpolants (nu_spline, B20_spline) are parameters with the contract stated in C13.Bmag_agree; "helicity = winding number" needs the grid to resolve the rotation (consecutive quadrants differ by at most one step): explicit hypothesis of C13.counter_winding'])
 
